@@ -548,5 +548,32 @@ def close_levels_rule(ctx, P, rule):
                 hi = hi - 1 if strip_casts(bound[0].cond)['o'] == '<' else hi
                 ok = count is None or hi >= count - 1
                 why = 'levels 1..%d' % hi
+                # the loop is left only through its bound: no break / return inside it
+                head = bound[0]
+                seen_, work_ = set(), [s_ for s_, l_ in head.succs if l_ == 'T']
+                while work_:
+                    x = work_.pop()
+                    if x.id in seen_ or x is head:
+                        continue
+                    seen_.add(x.id)
+                    work_.extend(s_ for s_, _ in x.succs)
+                body = {bid for bid in seen_ if any(s_ is head or s_.id in seen_ for s_, _ in fn.blocks[bid].succs)}
+                # blocks reachable from the body that cannot come back to the head = early exits
+                def back(bid, memo={}):
+                    seen2, w2 = set(), [fn.blocks[bid]]
+                    while w2:
+                        y = w2.pop()
+                        if y is head:
+                            return True
+                        if y.id in seen2:
+                            continue
+                        seen2.add(y.id)
+                        w2.extend(s_ for s_, _ in y.succs)
+                    return False
+                early = [bid for bid in seen_ if not back(bid) and any(p_.id in seen_ and back(p_.id) for p_, _ in fn.blocks[bid].preds)]
+                # the normal exit goes through the head's F edge only
+                if early:
+                    ok = False
+                    why = 'levels 1..%d, but the loop is left early (block B%d)' % (hi, early[0])
         ctx.ob(rule, ok, fn.name, 'commit of every level at close', c.where(),
                why if ok else 'close commits %s only: when that level is empty (the number of entries is a multiple of the decimation factor) the commit returns at once and the pending entries of the levels above are never written - the upper indexes miss their last chunk' % why)
